@@ -158,6 +158,64 @@ def witness_concurrent_rerun(out, findings):
     return 1
 
 
+def witness_rerun_timeout(out):
+    """Model-free lock-step witness: a dependency with `timeout: 1s` is cached by a fast run; then its blob is lost, its outputs are
+    removed, a marker (not an input) makes its command slow (3 s) and its dependant is edited.  Under `all` the dependency is re-made
+    at its own node and fails with the timeout; under `minimal` it is re-made inside the dependant's task: the SAME deadline must
+    apply there -- both modes fail, nothing of the overlong run is cached."""
+    import os, shutil, subprocess
+    grog = vlib.build_grog()
+    base = os.path.join(vlib.scratch(), "reruntimeout")
+    shutil.rmtree(base, ignore_errors=True)
+    obs = {}
+    for mode in ("all", "minimal"):
+        d = os.path.join(base, mode)
+        ws, root = os.path.join(d, "ws"), os.path.join(d, "root")
+        os.makedirs(ws); os.makedirs(root)
+        json.dump({"targets": [
+            {"name": "dep", "inputs": ["dep.in"], "outputs": ["dep.txt"], "timeout": "1s",
+             "command": 'echo dep >> "$CMDLOG"; if [ -f "$SLOWFLAG" ]; then sleep 3; fi; cp dep.in dep.txt'},
+            {"name": "use", "inputs": ["use.in"], "dependencies": [":dep"], "outputs": ["use.txt"],
+             "command": 'echo use >> "$CMDLOG"; cat dep.txt use.in > use.txt'}]}, open(os.path.join(ws, "BUILD.json"), "w"))
+        open(os.path.join(ws, "grog.toml"), "w").write('load_outputs = "%s"\nnum_workers = 2\n' % mode)
+        depin = "content-of-dep-long-enough-to-be-found-in-the-cas\n"
+        open(os.path.join(ws, "dep.in"), "w").write(depin); open(os.path.join(ws, "use.in"), "w").write("v1\n")
+        flag = os.path.join(d, "slow.flag")
+        env = bl.grog_env(root, os.path.join(d, "trace"), {"CMDLOG": os.path.join(d, "cmd.log"), "SLOWFLAG": flag})
+        env.pop("GROG_NUM_WORKERS", None)
+        run1 = lambda: subprocess.run([grog, "build"], cwd=ws, env=env, stdout=subprocess.PIPE, stderr=subprocess.PIPE, text=True, timeout=120)
+        p1 = run1()
+        for f in ("dep.txt", "use.txt"):
+            if os.path.exists(os.path.join(ws, f)):
+                os.unlink(os.path.join(ws, f))
+        open(os.path.join(ws, "use.in"), "w").write("v2\n")
+        open(flag, "w").close()
+        lost = 0
+        for dp, dn, fn in os.walk(root):
+            if os.path.basename(dp) == "cas":
+                for f in fn:
+                    q = os.path.join(dp, f)
+                    if open(q, errors="replace").read() == depin:
+                        os.unlink(q); lost += 1
+        open(os.path.join(d, "cmd.log"), "w").close()
+        p2 = run1()
+        p3 = run1()
+        obs[mode] = {"rc1": p1.returncode, "rc2": p2.returncode, "rc3": p3.returncode, "blobs_lost": lost,
+                     "commands_build2": open(os.path.join(d, "cmd.log")).read().split(), "out2": (p2.stdout + p2.stderr)[-300:]}
+    shutil.rmtree(base, ignore_errors=True)
+    a, m = obs["all"], obs["minimal"]
+    desc = {"targets": "dep (timeout 1s; slow when a marker file exists) <- use", "history": "build; remove outputs; edit use.in; create the marker; delete the "
+            "CAS blob of dep.txt; build; build", "observed": obs}
+    if a["rc1"] or m["rc1"] or a["blobs_lost"] != 1 or m["blobs_lost"] != 1:
+        out.violation("rerun-timeout witness: set-up failed: %s" % {k: (v["rc1"], v["blobs_lost"]) for k, v in obs.items()}, desc, no_input=True)
+    elif a["rc2"] == 0:
+        out.violation("mode all: a dependency whose re-execution exceeds its timeout (3 s against 1 s) does not fail the build", desc)
+    elif m["rc2"] == 0 or m["rc3"] == 0:
+        out.violation("under load_outputs=minimal a dependency re-made inside its dependant's task runs without its timeout (3 s against 1 s): "
+                      "mode all exits %s/%s, mode minimal exits %s/%s" % (a["rc2"], a["rc3"], m["rc2"], m["rc3"]), desc)
+    return 1
+
+
 def witness_rerun_fails(out):
     """Model-free lock-step witness (the generator's commands are idempotent, so Build.v cannot express it): dependency //:a is a
     cache hit whose blob is lost; its dependants were edited and have to run; the command of //:a cannot be re-run (it refuses to
@@ -270,6 +328,7 @@ def run(out, tier):
     findings = {f["class"]: f for f in vlib.known_findings("C15")}
     evals = witness_rerun_fails(out) + (len(dl[0]) if dl else 0)
     evals += witness_concurrent_rerun(out, findings)
+    evals += witness_rerun_timeout(out)
     for k in range(0, len(batch), 2):
         (na, ha, _, ma), (nm, hm, _, mm) = batch[k], batch[k + 1]
         # builds that follow a cache fault: mode all has to re-execute every selected target whose outputs it cannot restore,
